@@ -23,7 +23,7 @@ LAT = geomdecide.lattice_points(-9.0, 9.0, 19)
 GEOMS = ['-1', '-1 3', '(-1 : -6) 3']
 OV_KEYS = ['mat', 'rho', 'u', 'fill', 'trcl', '*trcl', 'imp']
 OV_VALUES = {
-    'mat': ['2', '3'], 'rho': ['-3.5', '-0.8'], 'u': ['7', '8'], 'fill': ['6', '5'],
+    'mat': ['2', '3'], 'rho': ['-3.5', '-0.8'], 'u': ['7', '8'], 'fill': ['6', '5', '6 (0 -1 0)', '6 (9)'],
     'trcl': ['(5 0 0)', '(0 5 1 0 1 0 -1 0 0 0 0 1)'], '*trcl': ['(0 -5 0)', '(4 4 0 90 0 90 180 90 90 90 90 0)'],
     'imp': ['n=0', 'n=2', 'n,p=0', 'n=0 p=0', 'p,n=0', 'p=0'],
 }
@@ -49,7 +49,7 @@ class Cell:
         if self.u:
             o.append('u=%s' % self.u)
         if self.fill:
-            o.append('fill=%s' % self.fill)
+            o.append('%sfill=%s' % ('*' if getattr(self, 'star_fill', False) else '', self.fill))
         if self.trcl:
             o.append('trcl=%s' % self.trcl)
         if self.startrcl:
@@ -75,6 +75,7 @@ def apply_override(cell, ov):
             cell.u = v
         elif k == 'fill':
             cell.fill = v
+            cell.star_fill = False
         elif k == 'trcl':
             cell.trcl = v; cell.startrcl = None
         elif k == '*trcl':
@@ -131,8 +132,16 @@ def build(chain_len):
             particles, val = part[4:].split('=')
             for pt in particles.split(','):
                 base.imp[pt] = val
-        bo = ch.choose('base-options', ['plain', 'fill', 'trcl', 'fill+trcl', 'u'])
-        if 'fill' in bo:
+        bo = ch.choose('base-options', ['plain', 'fill', 'trcl', 'fill+trcl', 'u', 'filltr', 'filltr-num+trcl',
+                                         'starfilltr'])
+        if bo == 'filltr':
+            base.fill = '5 (0 1 0.5)'          # FILL with its own transformation: LIKE n BUT FILL=u must drop it
+        elif bo == 'filltr-num+trcl':
+            base.fill = '5 (9)'
+        elif bo == 'starfilltr':
+            base.fill = '5 (0.5 0 0 0 90 90 90 0 90 90 90 0)'
+            base.star_fill = True
+        elif 'fill' in bo:
             base.fill = '5'
         if 'trcl' in bo:
             base.trcl = '(0 0 2)'
@@ -167,7 +176,7 @@ def build(chain_len):
         st.explicit_cells = b_cards + fixed
         st.surfs = ['1 so 2', '2 so 20', '3 px 0.25', '4 py -0.5', '5 s 0 0 7 1.5', '6 s 1.5 0 0 1.5',
                     '7 s 0 0 -7 1.5']
-        st.data = ['m1 13027 1', 'm2 26056 1', 'm3 1001 2 8016 1']
+        st.data = ['m1 13027 1', 'm2 26056 1', 'm3 1001 2 8016 1', 'tr9 0.5 -0.5 0 0 1 0 -1 0 0 0 0 1']
         st.noverrides = sum(len(lk.split(' but ')[1].split()) for lk, _ in likes)
         return st
     return bld
